@@ -2,6 +2,7 @@
 //! records executions of the real API for validation by TLC (impl -> spec).
 mod c04;
 mod c08;
+mod c10;
 mod c12;
 mod pdu;
 mod c13;
@@ -21,6 +22,9 @@ fn main() {
         ("record", "c04") => c04::record(rest),
         ("replay", "c08") => c08::replay(rest),
         ("replay", "c20") => c20::replay(rest),
+        ("replay", "c10") => c10::replay(rest),
+        ("record", "c10") => c10::record(rest),
+        ("ctors", "c10") => c10::ctors(rest),
         ("replay", "c12") => c12::replay(rest),
         ("record", "c12") => c12::record(rest),
         ("replay", "c13") => c13::replay(rest),
